@@ -62,6 +62,7 @@ RULE = ("Hypothesis draws an entry point and a layout. RTL (about a third of "
         "Non-trivial: at least two lattices and two features (so the "
         "arrangement is not forced); distinct by SHA-1 of the case.")
 NT_FLOOR = 0.6
+FUZZ = {"thorough": 15000}   # atheris executions per shard (thorough tier)
 BUDGET = {"quick": 350, "thorough": 6000}
 ASSUMPTIONS = [
     "enough slots: num_lattices * lattice_rank >= number of inputs (RTL and "
